@@ -11,6 +11,10 @@ for mp in sorted(glob.glob("/verif/seeded/*/meta.json")):
     summ = [l for l in L if l.startswith("SUMMARY")]
     stab = [l for l in L if l.startswith("stable_pass")]
     done = bool(summ and stab)
+    if summ and not stab and any("NOT PASSING:" in l for l in L):
+        # the tail of the suite report was cut after four lines of flipped tests: the run itself completed
+        done = True
+        stab = ["stable_pass line cut from the log (more than three tests flipped, see tests_no_longer_passing)"]
     c = m.setdefault("confirmed_by_me", {})
     c["done"] = done
     c["result"] = (summ[-1] + "; " + stab[-1]) if done else "queued (see confirm.log when present)"
